@@ -53,11 +53,9 @@ func c05RBFactory(typ logical.BackendType) logical.Factory {
 				{Pattern: "login/.*", Fields: map[string]*framework.FieldSchema{}, Operations: ops(b.handleLogin, logical.UpdateOperation)},
 			},
 			Secrets: []*framework.Secret{{
-				Type: "c05rb",
-				Revoke: func(context.Context, *logical.Request, *framework.FieldData) (*logical.Response, error) {
-					return nil, nil
-				},
-				Renew: b.handleRenew,
+				Type:   "c05rb",
+				Revoke: b.handleRevoke,
+				Renew:  b.handleRenew,
 			}},
 			AuthRenew: b.handleAuthRenew,
 		}
@@ -66,6 +64,59 @@ func c05RBFactory(typ logical.BackendType) logical.Factory {
 		}
 		return b, nil
 	}
+}
+
+// c05RBRevState steers and counts the revocations of the secrets issued with one tag (request field "tag").
+// While hang != 0 an attempt blocks until its context is done and answers with the context's error, as a
+// backend waiting on an external system that does not answer would.
+type c05RBRevState struct {
+	mu       sync.Mutex
+	hang     int // attempts still to hang; -1: every attempt
+	attempts int // revoke calls that reached the backend
+	returned int // ... and returned
+	hung     int // ... after having waited for the context
+}
+
+func (st *c05RBRevState) snapshot() (attempts, returned, hung int) {
+	st.mu.Lock()
+	defer st.mu.Unlock()
+	return st.attempts, st.returned, st.hung
+}
+
+func (st *c05RBRevState) setHang(n int) {
+	st.mu.Lock()
+	st.hang = n
+	st.mu.Unlock()
+}
+
+var c05RBRev sync.Map // tag -> *c05RBRevState
+
+func (b *c05RB) handleRevoke(ctx context.Context, req *logical.Request, d *framework.FieldData) (*logical.Response, error) {
+	tag, _ := req.Secret.InternalData["tag"].(string)
+	x, ok := c05RBRev.Load(tag)
+	if tag == "" || !ok {
+		return nil, nil
+	}
+	st := x.(*c05RBRevState)
+	st.mu.Lock()
+	st.attempts++
+	hang := st.hang != 0
+	if st.hang > 0 {
+		st.hang--
+	}
+	st.mu.Unlock()
+	var err error
+	if hang {
+		<-ctx.Done()
+		err = ctx.Err()
+	}
+	st.mu.Lock()
+	st.returned++
+	if hang {
+		st.hung++
+	}
+	st.mu.Unlock()
+	return nil, err
 }
 
 func c05RBDur(v any) time.Duration {
@@ -85,6 +136,9 @@ func (b *c05RB) handleLease(ctx context.Context, req *logical.Request, d *framew
 	ttl, max := c05RBDur(req.Data["ttl"]), c05RBDur(req.Data["max_ttl"])
 	mode, _ := req.Data["renew_mode"].(string)
 	internal := map[string]any{"renew_mode": mode, "ttl": ttl.String(), "max_ttl": max.String()}
+	if tag, ok := req.Data["tag"].(string); ok && tag != "" {
+		internal["tag"] = tag
+	}
 	resp := b.Secret("c05rb").Response(map[string]any{"value": "x"}, internal)
 	resp.Secret.TTL, resp.Secret.MaxTTL = ttl, max
 	resp.Secret.Renewable = true
